@@ -1105,7 +1105,7 @@ fn directed(r: &mut Rng, reg: &mut Reg, pns: &mut PnGen, out: &mut Sink) -> Vec<
             fixed: vec![ch],
         });
     }
-    // F20: the same shape with the number of small integers tuned so that the gauge's size is at most
+    // F22: the same shape with the number of small integers tuned so that the gauge's size is at most
     // BRANCH_NODE_BODY_SIZE while the encoding `push_chunk` writes (first separator stored with
     // `old prefix_len - new prefix_len` bits instead of 0) is larger
     for shared_bytes in [27usize, 20, 12, 4] {
@@ -1142,7 +1142,7 @@ fn directed(r: &mut Rng, reg: &mut Reg, pns: &mut PnGen, out: &mut Sink) -> Vec<
                 universe: vec![],
                 rounds: 1,
                 scen: 9,
-                desc: format!("directed F20: first separator shorter than the prefix, prefix shrinks to {shared_bytes} bytes, gauge at the limit (n={})", keys.len() + 1),
+                desc: format!("directed F22: first separator shorter than the prefix, prefix shrinks to {shared_bytes} bytes, gauge at the limit (n={})", keys.len() + 1),
                 fixed: vec![ch],
             });
         }
